@@ -35,6 +35,37 @@ pub fn run(scenario: &str, input: &Value) -> Option<(bool, Value)> {
             }
             Some((ok, json!({"len": len, "items": items, "probe": probe_res})))
         }
+        // C06: frames sent by a scripted peer after a real handshake; every well-formed message is returned once, in
+        // order; a malformed frame yields an error for that frame only and never panics the task
+        "recv_frames" => {
+            let frames: Vec<Vec<u8>> = input["frames"].as_array().unwrap().iter()
+                .map(|f| f.as_array().unwrap().iter().map(|x| x.as_u64().unwrap() as u8).collect()).collect();
+            let expect: Vec<String> = input["expect"].as_array().unwrap().iter().map(|x| x.as_str().unwrap().to_string()).collect();
+            let flags = input.get("peer_flags").and_then(|v| v.as_u64()).unwrap_or(0x0000_000d_07df_7fbd);
+            let rt = tokio::runtime::Builder::new_current_thread().enable_all().build().unwrap();
+            let n_expect = expect.len();
+            let got: Vec<String> = rt.block_on(async move {
+                let (mut conn, mut peer) = crate::peer::connected(flags).await;
+                use tokio::io::AsyncWriteExt;
+                for f in &frames { peer.write_all(&crate::peer::frame(f)).await.unwrap(); }
+                peer.flush().await.unwrap();
+                let mut got = Vec::new();
+                for _ in 0..n_expect {
+                    let h = tokio::spawn(async move {
+                        let r = tokio::time::timeout(std::time::Duration::from_secs(2), conn.receive_message()).await;
+                        (conn, r)
+                    });
+                    match h.await {
+                        Ok((c, Ok(Ok((ctl, _))))) => { got.push(format!("ok:{}", ctl.to_term().as_tuple().map(|t| t.len()).unwrap_or(0))); conn = c; }
+                        Ok((c, Ok(Err(_)))) => { got.push("err".to_string()); conn = c; }
+                        Ok((c, Err(_))) => { got.push("timeout".to_string()); conn = c; }
+                        Err(_) => { got.push("panic".to_string()); break; }
+                    }
+                }
+                got
+            });
+            Some((got == expect, json!({"got": got})))
+        }
         // C09: fragments numbered N..1 (header = N, carrying the start of the data) reassemble to the original bytes
         "fragments" => {
             use edp_client::fragmentation::FragmentAssembler;
